@@ -121,6 +121,9 @@ func serveOpLine(df *dataFile, qs []*query) string {
 	for _, q := range qs {
 		ts = append(ts, q.token())
 	}
+	if len(ls) == 0 {
+		ls = []string{"-"} // the empty data file
+	}
 	return fmt.Sprintf("serve %s %s", strings.Join(ls, ";"), strings.Join(ts, ";"))
 }
 
